@@ -4,6 +4,7 @@ import (
 	"context"
 	"fmt"
 	"sort"
+	"regexp"
 	"strings"
 	"testing"
 
@@ -19,9 +20,34 @@ import (
 
 var c20Alphabet = []string{
 	`{a:1}`, `{b:"x"}`, `{a:1,b:"x"}`, `{a:"s"}`, `{a:{c:1}}`, `{a:{d:"y"},e:2}`,
-	`{l:[1,2]}`, `{l:["a"]}`, `{s:|[1]|}`, `{m:|{"k":1}|}`, `{m:|{"k":"v"}|}`,
+	`{l:[1,2]}`, `{l:["a"]}`, `{l:|[1,2]|}`, `{l:["b","a","b"]}`, `{s:|[1]|}`, `{m:|{"k":1}|}`, `{m:|{"k":"v"}|}`,
 	`{u:1((int64,string))}`, `{a:1}(=named)`, `{p:80(port=uint16)}`,
 	`{a:null(int64)}`, `{a:{c:null(int64)}}`, `{a:null({c:int64})}`, `7`, `"str"`, `null`,
+}
+
+var c20IndexRe = regexp.MustCompile(`\[(\d+|\*)\]`)
+
+// c20Unindexed drops element positions from leaf paths (arrays and sets alike).
+func c20Unindexed(ls []string) []string {
+	out := make([]string, len(ls))
+	for i, l := range ls {
+		out[i] = c20IndexRe.ReplaceAllString(l, "[]")
+	}
+	return out
+}
+
+// c20SameContainerKinds: both leaf lists use positions ([n]) and set markers ([*]) at the same places.
+func c20SameContainerKinds(a, b []string) bool {
+	shape := func(ls []string) string {
+		var sb strings.Builder
+		for _, l := range sortedCopy(ls) {
+			p := strings.SplitN(l, "|", 2)[0]
+			sb.WriteString(regexp.MustCompile(`\[\d+\]`).ReplaceAllString(p, "[n]"))
+			sb.WriteByte(';')
+		}
+		return sb.String()
+	}
+	return shape(a) == shape(b)
 }
 
 // leaves returns the multiset of non-null primitive leaves of a value as
@@ -211,6 +237,11 @@ func TestC20(t *testing.T) {
 			// primitive type and value, in order; nothing else non-null.
 			for i := range inVals {
 				in, out := leafSet(inVals[i]), leafSet(outVals[i])
+				if strings.Join(in, "\n") != strings.Join(out, "\n") && sameMultiset(c20Unindexed(in), c20Unindexed(out)) && !c20SameContainerKinds(in, out) {
+					// a set fused with an array becomes an array (or the reverse) with every
+					// element kept: positions are not comparable, the elements are
+					continue
+				}
 				if strings.Join(in, "\n") != strings.Join(out, "\n") {
 					fail("leaves-not-preserved input="+c20Mix(inVals), map[string]any{"index": i, "input_value": lines[i], "output_value": got[i], "input_leaves": in, "output_leaves": out})
 					return
@@ -231,5 +262,5 @@ func TestC20(t *testing.T) {
 	}
 	run.Sample(map[string]any{"alphabet": c20Alphabet, "sequences": len(seqs), "max_length": maxLen})
 	run.Set("exhaustive", true)
-	run.Set("rule", fmt.Sprintf("all sequences of length <= %d over a %d-value shape alphabet (disjoint / overlapping fields, one field with two primitive types, nested records, arrays/sets/maps of differing element types, a union-typed field, named record and named primitive, nulls at three depths, non-record values) x fuse.MemMaxBytes in {default, 1 byte}; oracle: one output per input in order, one output type equal to fuse(this), each output's non-null primitive leaves (path, primitive type, value) equal to the input's, identical output with and without spill. distinct = distinct sequences", maxLen, len(c20Alphabet)))
+	run.Set("rule", fmt.Sprintf("all sequences of length <= %d over a %d-value shape alphabet (disjoint / overlapping fields, one field with two primitive types, nested records, arrays/sets/maps of differing element types, a set and arrays (one with repeated, unsorted elements) at the same path, a union-typed field, named record and named primitive, nulls at three depths, non-record values) x fuse.MemMaxBytes in {default, 1 byte}; oracle: one output per input in order, one output type equal to fuse(this), each output's non-null primitive leaves (path, primitive type, value) equal to the input's (where a set was fused into an array or the reverse, the elements as a multiset), identical output with and without spill. distinct = distinct sequences", maxLen, len(c20Alphabet)))
 }
